@@ -166,7 +166,7 @@ func genC12() {
 	pin("pkg/redis/client/handler.go", "ParseArgs", "ChangeArgsToResp")
 	pin("pkg/redis/client/resp.go", "AsBulkBytes", "AsArray")
 	pin("pkg/redis/client/encoder.go", "itos", "encodeResp", "encodeType", "encodeString", "encodeInt", "encodeBulkBytes", "encodeArray")
-	pin("pkg/redis/client/proto/writer.go", "WriteArgs", "writeLen", "WriteArg", "bytes", "string", "uint", "int", "float", "crlf")
+	pin("pkg/redis/client/proto/writer.go", "WriteArgs", "writeLen", "WriteArg", "bytes", "string", "uint", "int", "crlf") // not `float`: its rendering is free, the round trip is checked on the real writer
 	pin("pkg/redis/client/conn/redis_conn.go", "Send", "send")
 	facts["c12_bodies"] = bodies
 
